@@ -153,6 +153,7 @@ type Env struct {
 	Sites              []string
 	finalized          int
 	held               []heldSlice // slices delivered to the harness and kept by reference (Hold / CheckHeld)
+	after              []func()    // see After
 	expectHarnessPanic bool
 	srcs               []*Src
 	recs               []*Rec
@@ -184,6 +185,11 @@ func (e *Env) Violate(prop, clause, msg string) {
 }
 
 func (e *Env) Probe(name string) { e.Probes[name]++ }
+
+// After registers work to be done once the simulated run is over, outside the synctest bubble: real-time
+// bounded computations (porcupine's timeout is a timer: inside the bubble it would never fire while the
+// checker's goroutines are busy). The function may call Violate and Probe.
+func (e *Env) After(f func()) { e.after = append(e.after, f) }
 
 func (e *Env) Note(s string) { e.notes = append(e.notes, s) }
 
